@@ -51,6 +51,11 @@ def run(tier, seed):
             chk.violation(dict(check='setup_raises', family='free_scale', error=type(e).__name__), 'set-up raised %s: %s' % (type(e).__name__, e), dict(cfg=cs[0]))
             continue
         best = max(lat.values())
+        if x is None:
+            # the lattice of scales has feasible behaviours (TLC), so the problem with a free scale is feasible
+            chk.violation(dict(check='free_scale_infeasible', family='free_scale', fix=cs[0]['scale'][2]),
+                          'the problem with a free scale is %s although the fixed-scale problems have behaviours (best %.9g)' % (st, best), dict(cfgs=cs))
+            continue
         m = op.mapping
         sidx = int(m.index[m['var_name'] == 'scale'][0])
         sc = x[sidx]
